@@ -65,7 +65,11 @@ CLAIMS = {
          'fault script, every capacity and every history - with loop fuel 2|data|+4 and refill fuel |script|+2 no call ever runs out of fuel (the model\'s "hangs") or panics '
          '(C06_fa_terminates, C06_fq_terminates, C06_*_history_never_hangs_or_panics; measures: bytes not yet passed, capacity strictly growing at a full buffer). C06f also proves that after a failed '
          'refill the buffer is empty, so a later seek always reads again; C14p/C14pq: everything returned before the first source failure is what the fault-free run returns. '
-         'Genuineness after faults is covered by the run (membership + position oracles; 10 s watchdog). Tie: random inputs incl. binary x faults x refusing/scripted policies x mixed histories with post-error calls, debug build.',
+         'C06g.v / C06gq.v (10): GENUINENESS for every history WHATEVER THE SOURCE DOES - arbitrary read and seek scripts (interrupts, short reads, any number of failures anywhere), any history of '
+         'single, owned, set, exact-count reads, iteration, position queries and seeks to record positions: every record view, owned record and set member ever returned shows an item of the Spec stream '
+         '(C06_fa/fq_every_returned_record_is_genuine), no accessor panic, no abnormal outcome, and between two seeks the byte offsets strictly increase (C06_*_returned_records_in_order); the invariant '
+         '(new possibly after failed first calls / healthy up to cutting the scripts before their first failure / finished with the buffer dropped) is exposed in plain terms. '
+         'The run adds membership + position oracles on the real code (10 s watchdog). Tie: random inputs incl. binary x faults x refusing/scripted policies x mixed histories with post-error calls, debug build.',
     technique='Coq invariant proof (sanity preserved for all policies/faults => no panic) + refinement corollaries + fault-injecting differential run with membership oracle',
     ref='5 C06'),
  'C09': dict(
@@ -75,7 +79,9 @@ CLAIMS = {
          'built-in policies (definitions regenerated from policy.rs) compute the documented sizes and equal the executable ones; C18_fa_steady_run / C18_fq_steady_run '
          'add: input whose records all fit is read without any consultation; C09s.v (10): the same END-TO-END for ANY history of next(), owned reads, PLAIN record-set reads into two slots, '
          're-iteration and position queries, both formats: if every record\'s needed window fits the initial capacity (a property of the input alone: FaAllRecordsFit / FqAllRecordsFit) '
-         'the policy is never consulted and the capacity never changes, for every input length; the threshold is exact (examples: one byte less and the log has a consultation). '
+         'the policy is never consulted and the capacity never changes, for every input length; the threshold is exact (examples: one byte less and the log has a consultation). C09l.v (18): (d) with an ARBITRARY policy, everything returned before the first buffer-limit error is '
+         'what the never-refusing completion of the policy makes the reader return - the Spec stream - and without a refusal nothing differs at all; (e) installing PolOk policies at any points leaves all outcomes '
+         'unchanged, and after buffer-limit errors a generous policy delivers the SAME record and the rest of the stream (C09_*_limit_then_generous_policy_resumes), both formats. '
          'C09b.v (14): for the same histories WITHOUT the fit hypothesis every consultation is justified - the capacity at which the policy is asked is smaller than the needed window of '
          'some record of the input (C09_*_consultation_means_record_does_not_fit) - hence with a policy that at most doubles (pol_std, DoubleUntil: proved) the capacity never exceeds '
          'max(initial, 2*(W-1)) where W is the largest needed window, however long the input is (bound attained; exact-count reads are outside, with counter-examples). Tie: recording policies, grow_to log and offered read sizes compared with the model; '
